@@ -131,7 +131,10 @@ int main(int argc, char** argv) {
     if (pl[0] == "B") {
       ++nb; step = 0; mp.reset(new Machine()); Machine& m = *mp;
       Rng r(seed * 104729 + nb * 7919 + std::hash<std::string>()(REC_KEY));
-      const char* ths[] = {"generic", "mid_hi", "near_pi", "small", "generic", "sw_1e2"}; const char* lins[] = {"1", "1e3", "1e-3", "1", "zero", "1"};
+      const bool gen = pl[1] == "g";   // single-call behaviours: generic registers
+      const char* ths0[] = {"generic", "mid_hi", "near_pi", "small", "generic", "sw_1e2"}; const char* lins0[] = {"1", "1e3", "1e-3", "1", "zero", "1"};
+      const char* thsg[] = {"generic", "generic", "generic", "generic", "generic", "generic"}; const char* linsg[] = {"1", "1", "1", "1", "1", "1"};
+      const char** ths = gen ? thsg : ths0; const char** lins = gen ? linsg : lins0;
       for (int i = 0; i < 3; ++i) m.g[i] = draw_element<G>(ths[r.i(0, 5)], lins[r.i(0, 5)], "any", "generic", r);
       for (int i = 0; i < 3; ++i) { Eigen::Map<G> v(m.gs(i)); v = draw_element<G>(ths[r.i(0, 5)], lins[r.i(0, 5)], "any", "generic", r); }
       for (int i = 0; i < 2; ++i) m.u[i] = draw_tangent<G>(ths[r.i(0, 5)], lins[r.i(0, 5)], "generic", r);
@@ -206,7 +209,7 @@ int main(int argc, char** argv) {
       } else if (op == "normalize") { withG(m, dst, [&](const auto& X) { res = X; }); do_normalize(res); }
       else if (op == "setIdentity") { res.setIdentity(); }
       else if (op == "setRandom") { res.setRandom(); }
-      else if (op == "setcoeff") { }
+      else if (op == "setcoeff" || op == "renormalize") { }
       else if (op == "tsetZero") { tres.setZero(); isT = true; }
       else if (op == "tsetRandom") { tres.setRandom(); isT = true; }
       else { std::fprintf(stderr, "unknown op %s\n", op.c_str()); std::exit(3); }
@@ -250,6 +253,14 @@ int main(int argc, char** argv) {
           else if (Info<G>::rot == NONE) D.coeffs()(0) = (S)(0.125 * (double)(step % 17) - 1.0);
           else D.coeffs() = -D.coeffs();
           res = D;
+        }
+        else if (op == "renormalize") {
+          // the rotation coefficients are scaled far below unit norm through the coefficient accessor (1e-9 or 1e-12: the
+          // direction survives in both precisions), then normalize() has to bring them back: inside the destination only
+          const int nrot = Info<G>::rot == COMPLEX ? 2 : Info<G>::rot == QUAT ? 4 : 0;
+          const S k = (S)(step % 2 ? 1e-9 : 1e-12);
+          for (int i = 0; i < nrot; ++i) D.coeffs()(Info<G>::coff + i) *= k;
+          do_normalize(D); res = D;
         }
         else if (op == "moveassign") {
           // D = std::move(source), the source being an object of its own storage kind (a fresh view over the same slot
